@@ -199,10 +199,10 @@ func h265Meta(p *codecs.H265Packet) Ev {
 		e["others"] = others
 		return e
 	case *codecs.H265PACIPacket:
-		tsci := -1
+		tsci := Ev{"present": false, "tl0": 0, "irap": 0, "s": false, "e": false, "res": 0}
 		guard(func() {
 			if t := x.TSCI(); t != nil {
-				tsci = int(uint32(*t) >> 8) // 24 significant bits
+				tsci = Ev{"present": true, "tl0": int(t.TL0PICIDX()), "irap": int(t.IrapPicID()), "s": t.S(), "e": t.E(), "res": int(t.RES())}
 			}
 		})
 		return Ev{"type": "paci", "hdr": int(x.PayloadHeader()), "A": x.A(), "cType": int(x.CType()), "PHSsize": int(x.PHSsize()), "F0": x.F0(), "F1": x.F1(),
